@@ -122,6 +122,8 @@ def plan_inherit(case, pid):
                 via, f, mp = r
                 if not via["field_path"]:
                     continue
+                if not any(a["k"] in ("cself", "mself") for a in f["args"]):
+                    continue        # a forwarder without receiver: no sub-object to observe (decided statically and by the compilers)
                 acts.append({"k": "fcall", "ty": ty, "method": e["name"], "args": decl_args(f, mp), "ret": decl_ty(f["ret"], mp), "via": via})
             for a in t["asrefs"]:
                 acts.append({"k": "asref", "ty": ty, "target": a["ty"], "fields": a["path"]})
